@@ -5,6 +5,7 @@
 package c18
 
 import (
+	"errors"
 	"bufio"
 	"context"
 	"encoding/json"
@@ -49,6 +50,8 @@ type Stim struct {
 	// Fast (stream connections): a pong event at the same instant as the tick before it is delivered BEFORE the write of the
 	// ping has returned - the peer answers faster than the pinging goroutine gets back from the socket
 	Fast bool `json:"fast"`
+	// WFail: the history has ticks with g = 1 - the ping of that tick cannot be written (bare objects and the udp connection only)
+	WFail bool `json:"wfail"`
 }
 
 // pipeline turns frames into chunks that end in the middle of the next frame (an extra request frame per chunk, completed by
@@ -110,10 +113,14 @@ func runBare(st Stim) Trace {
 		cancelled bool
 	}
 	var pings []*ping
+	var failWrite atomic.Bool
 	closeFn := func(c *fakeConn) { _ = c.Close() }
 	var mon *inactivity.Monitor[*fakeConn]
 	if st.KeepAlive {
 		ka := inactivity.NewKeepAlive(uint32(st.MaxRetries), closeFn, func(_ *fakeConn, receivePong func()) (func(), error) {
+			if failWrite.Load() { // the ping cannot be written (a tick event with g = 1)
+				return nil, errors.New("harness: transient write error")
+			}
 			mu.Lock()
 			p := &ping{cb: receivePong}
 			pings = append(pings, p)
@@ -149,7 +156,9 @@ func runBare(st Stim) Trace {
 				p.cb()
 			}
 		case "tick":
+			failWrite.Store(e.G == 1)
 			mon.CheckInactivity(clock(), cc)
+			failWrite.Store(false)
 		}
 		mu.Lock()
 		tr.Obs = append(tr.Obs, Obs{Closed: cc.closes.Load() > 0, Pings: len(pings)})
@@ -227,7 +236,11 @@ func runUDP(st Stim) Trace {
 				_ = u.Inject(memnet.Build(typ, int(codes.Empty), pingMIDs[e.G-1], nil, nil, nil))
 			}
 		case "tick":
+			if e.G == 1 { // the ping of this tick cannot be written (a transient error of the socket)
+				u.Sess.FailNext.Store(1)
+			}
 			u.CC.CheckExpirations(clock())
+			u.Sess.FailNext.Store(0)
 		}
 		closed := false
 		select {
@@ -379,6 +392,9 @@ func Run(stimPath, out string) {
 		}
 		wr.Put(runBare(st))
 		wr.Put(runUDP(st))
+		if st.WFail {
+			continue
+		}
 		wr.Put(runTCP(st))
 		if st.Srv {
 			wr.Put(runUDPServer(st))
